@@ -158,7 +158,7 @@ Proof.
   unfold do_step, test_step; cbn zeta.
   set (st' := if s_rm x then rm_plz_out st else st).
   set (k := runtime_key (s_def x)).
-  destruct (option_eqb str_eqb (st_bin st') (Some (t_bin (s_def x)))) eqn:Hs;
+  destruct (settled c st' (s_def x)) eqn:Hs;
     destruct (st_local st') as [l|] eqn:Hl.
   1: { destruct (key_eqb l k) eqn:Hk; cbn [negb snd].
        - intros _; left; apply key_eqb_eq in Hk; subst; reflexivity.
@@ -388,7 +388,7 @@ Definition mk (cmd : tcmd) (files : list rfile) : tsrc :=
   {| ts_rule := [s "//p:t"; s "//p:g"; s "s.txt"; s "t.bin"; s "cat"; s "//p:g"];
      ts_cmds := Single (s "test") cmd;
      ts_files := {| rf_role := ROut; rf_dest := s "t.bin"; rf_node := File (s "bin") |} :: files;
-     ts_bin := s "bin" |}.
+     ts_bin := s "bin"; ts_build := [s "//p:t"; s "//p:g"; s "s.txt"; s "bin"; s "t.bin"; s "cat"] |}.
 
 Definition plain (t : tsrc) : step := {| s_rm := false; s_config := []; s_args := []; s_src := t |}.
 
@@ -548,4 +548,80 @@ Lemma refuted_by_args :
 Proof.
   intros H. destruct (H false w_args 1 _ eq_refl) as (r & Hr & Hp).
   vm_compute in Hr. injection Hr as <-. vm_compute in Hp. discriminate.
+Qed.
+
+(* ---------------------------------------------------------------------------------------------- *)
+(* the build cache: what the directory cache holds of the test binary was built, by running the build
+   command, in an earlier invocation of this history from the same rule and sources; so a FETCHED binary
+   (target state Cached, the path on which needToRun consults the result cache instead of the results
+   file) is always one that this history built *)
+
+Definition pre_state (c : bool) (pre : list step) (x : step) : tstate :=
+  if s_rm x then rm_plz_out (state_after c pre) else state_after c pre.
+
+Definition built_by (c : bool) (pre : list step) (b : list str) : Prop :=
+  exists pre1 y post1, pre = pre1 ++ y :: post1 /\ builds c (pre_state c pre1 y) (s_def y) = true
+                       /\ t_build (s_def y) = b.
+
+Lemma built_by_snoc c pre x b : built_by c pre b -> built_by c (pre ++ [x]) b.
+Proof.
+  intros (pre1 & y & post1 & -> & Hb & Hk).
+  exists pre1, y, (post1 ++ [x]); rewrite <- app_assoc; auto.
+Qed.
+
+Lemma do_step_builds c st x :
+  st_builds (fst (do_step c st x)) = builds_after c (if s_rm x then rm_plz_out st else st) (s_def x).
+Proof.
+  unfold do_step, test_step. destruct (negb _); cbn [fst st_builds]; [reflexivity|].
+  destruct (outcome_args (s_def x) (s_args x)); reflexivity.
+Qed.
+
+Lemma rm_builds st (b : bool) : st_builds (if b then rm_plz_out st else st) = st_builds st.
+Proof. destruct b; reflexivity. Qed.
+
+Lemma bkey_eqb_eq a b : bkey_eqb a b = true -> a = b.
+Proof.
+  unfold bkey_eqb. destruct (list_eqb_spec str_eqb str_eqb_reflect a b) as [->|Hne]; [reflexivity | discriminate].
+Qed.
+
+Lemma builds_inv c pre : forall b, In b (st_builds (state_after c pre)) -> built_by c pre b.
+Proof.
+  induction pre as [|x pre IH] using rev_ind; [intros b []|].
+  intros b. rewrite state_after_snoc, do_step_builds. fold (pre_state c pre x).
+  unfold builds_after. destruct (builds c (pre_state c pre x) (s_def x) && c) eqn:Hb.
+  - intros [<-|Hin].
+    + apply andb_true_iff in Hb. exists pre, x, []; repeat split; tauto.
+    + apply built_by_snoc, IH. unfold pre_state in Hin. rewrite rm_builds in Hin. exact Hin.
+  - intros Hin. apply built_by_snoc, IH. unfold pre_state in Hin. rewrite rm_builds in Hin. exact Hin.
+Qed.
+
+Theorem fetched_only_what_was_built c pre x :
+  fetched c (pre_state c pre x) (s_def x) = true -> built_by c pre (t_build (s_def x)).
+Proof.
+  unfold fetched. rewrite !andb_true_iff. intros [_ Hex].
+  apply existsb_exists in Hex. destruct Hex as (b & Hin & Heq). apply bkey_eqb_eq in Heq. subst b.
+  apply builds_inv. unfold pre_state in Hin. rewrite rm_builds in Hin. exact Hin.
+Qed.
+
+(* the build command never runs twice for one build key while the binary stays in plz-out, and with a
+   directory cache never twice at all *)
+Theorem built_once_with_cache pre x :
+  builds true (pre_state true pre x) (s_def x) = true -> ~ built_by true pre (t_build (s_def x)).
+Proof.
+  unfold builds, fetched. intros Hb (pre1 & y & post1 & -> & Hy & Hk).
+  assert (Hin : In (t_build (s_def x)) (st_builds (state_after true (pre1 ++ y :: post1)))).
+  { clear Hb. induction post1 as [|z post1 IH] using rev_ind.
+    - replace (pre1 ++ [y]) with (pre1 ++ [y]) by reflexivity.
+      rewrite state_after_snoc, do_step_builds. fold (pre_state true pre1 y).
+      unfold builds_after. rewrite Hy; cbn [andb]. left; exact Hk.
+    - replace (pre1 ++ y :: post1 ++ [z]) with ((pre1 ++ y :: post1) ++ [z]) by (rewrite <- app_assoc; reflexivity).
+      rewrite state_after_snoc, do_step_builds. unfold builds_after.
+      destruct (_ && _); [right|]; rewrite rm_builds; exact IH. }
+  apply andb_true_iff in Hb. destruct Hb as [Hn Hf]. rewrite Hn in Hf. cbn [andb] in Hf.
+  apply negb_true_iff in Hf.
+  assert (Hex : existsb (bkey_eqb (t_build (s_def x))) (st_builds (pre_state true (pre1 ++ y :: post1) x)) = true).
+  { apply existsb_exists. exists (t_build (s_def x)). split.
+    - unfold pre_state. rewrite rm_builds. exact Hin.
+    - unfold bkey_eqb. destruct (list_eqb_spec str_eqb str_eqb_reflect (t_build (s_def x)) (t_build (s_def x))); congruence. }
+  rewrite Hex in Hf. discriminate.
 Qed.
